@@ -35,8 +35,21 @@ let buf = Buffer.create 65536
 let out s = Buffer.add_string buf s; Buffer.add_char buf '\n';
   if Buffer.length buf > 60000 then (print_string (Buffer.contents buf); Buffer.clear buf)
 
+(* C17_fen_total evaluated: the index model of readFEN never leaves the string / the board and
+   computes the same result as the structural model (model-only line, not compared with the C++) *)
+let fen_ix s r =
+  let want = (match r with FenOk p -> IxOk p | FenErr e -> IxErr e) in
+  let got = readFENix zk s in
+  out (match got with
+       | IxOut site -> Printf.sprintf "I 0 out-of-range-site-%d" (int_of_n site)
+       | IxFuel -> "I 0 fuel"
+       | _ -> if got = want then "I 1" else "I 0 result-differs")
+
 let do_pos fenhex =
-  match readFEN zk (str_of_hex fenhex) with
+  let s = str_of_hex fenhex in
+  let r = readFEN zk s in
+  fen_ix s r;
+  match r with
   | FenErr e -> out (Printf.sprintf "E %d" (err_code e))
   | FenOk p ->
     out ("P " ^ state p);
@@ -44,6 +57,8 @@ let do_pos fenhex =
     let same = (match readFEN zk f2 with FenOk q -> state q = state p | FenErr _ -> false) in
     out (Printf.sprintf "R %d %s" (if same then 1 else 0) (hex_of_str f2));
     let legal = legalOf p in
+    (* hypothesis of C17_short_roundtrip / C17_short_injective on this position (model-only line) *)
+    out (if legalShapeb p legal then "H 1" else "H 0");
     let items = List.map (fun m ->
         let uci = moveToUCIString m in
         let sh = moveToStringL p legal m false in
@@ -67,7 +82,9 @@ let () =
           | "pos" -> out line; do_pos (List.hd args)
           | "fen" ->
             out line;
-            (match readFEN zk (str_of_hex (List.hd args)) with
+            let s = str_of_hex (List.hd args) in
+            fen_ix s (readFEN zk s);
+            (match readFEN zk s with
              | FenOk p -> out ("P " ^ state p)
              | FenErr e -> out (Printf.sprintf "E %d" (err_code e)))
           | "stm" ->
